@@ -112,6 +112,18 @@ add("C20", "exploration",
     "Near-miss Accept values (lists, parameters, case) are not claimed; with no document configured only 'valid JSON, empty document' is judged; values are sampled, not exhaustive.",
     "DESIGN.md section 4, C20")
 
+add("C08", "exploration",
+    "runtime monitoring: offline checker over logical-clock-stamped child emissions and client receipts of merged sessions with scripted children (EOSE gating, pre-EOSE order/dedup/limit/filter, post-EOSE per-child FIFO); race detector + verifPoint delays",
+    "2-5 scripted children per session play seeded scripts (stored events sorted or not, matching or not, shared between children; EOSE; uniquely marked live events) with seeded delays while the client issues REQs and CLOSEs at seeded points; per (sub id, generation) the recorded traces must show exactly one EOSE after every child's own (none once a child had received the CLOSE before the last child EOSE was sent), a matching, duplicate-free, non-increasing pre-EOSE stream within a single filter's limit, and complete in-order forwarding of every post-EOSE emission. Held on the sessions/generations counted in the evidence." + RACE,
+    "Interleavings are sampled; sub ids are re-issued only after their EOSE (as the quantifier says); events a child emits between its own EOSE and the merged one, and after a client CLOSE, are 'may'.",
+    "DESIGN.md section 4, C08")
+
+add("C09", "exploration",
+    "runtime monitoring: reply-conservation checker over merged sessions with scripted children whose verdicts/reasons/counts identify the submission they answer; race detector + verifPoint delays",
+    "2-5 scripted children answer every EVENT/COUNT after seeded delays with verdicts, reasons and counts that are a function of (child, id, occurrence); the client pipelines requests over tiny id alphabets with the same id several times in flight and CLOSEs in between; at quiescence #OK(id) = #EVENT(id), accepting OKs = all-accept submissions, each rejection begins with the full reason (prefix included) of the lowest-index or earliest-replying rejecter of a distinct submission, and COUNT replies are one per request carrying the per-request maxima. Held on the sessions counted in the evidence." + RACE,
+    "Children answer the same id in submission order (different ids out of order); 'first rejecting child' is read as lowest index or earliest reply.",
+    "DESIGN.md section 4, C09")
+
 NOT_YET = "check not built yet in this revision (work in progress; see DESIGN.md)"
 
 
